@@ -155,6 +155,9 @@ func c13Gen(tier string, emit func(c13Case)) {
 	for g := 1; g <= 66; g += 5 {
 		for k := 0; k <= 66; k++ {
 			emit(c13Case{Kind: "count", Via: "group+route", N: g, N2: k})
+			// the route already carries its middleware when it is attached inside the group
+			emit(c13Case{Kind: "count", Via: "group+attached-route", N: g, N2: k})
+			emit(c13Case{Kind: "count", Via: "nested-groups", N: g, N2: k})
 		}
 	}
 	// nil handler, options after routes, empty caching router
@@ -323,6 +326,16 @@ func c13Run(c c13Case, st *fw.Stats) []fw.Viol {
 				r.GET("/h", c13Noop, mk(c.N/2)...).Use(mk(c.N - c.N/2)...)
 			case "group+route":
 				r.Group("/", func() { r.GET("/h", c13Noop, mk(c.N2)...) }, mk(c.N)...)
+			case "group+attached-route":
+				r.Group("/", func() {
+					rt := rux.NewRoute("/h", c13Noop, "GET")
+					if c.N2 > 0 {
+						rt.Use(mk(c.N2)...)
+					}
+					rt.AttachTo(r)
+				}, mk(c.N)...)
+			case "nested-groups":
+				r.Group("/", func() { r.Group("/", func() { r.GET("/h", c13Noop) }, mk(c.N2)...) }, mk(c.N)...)
 			}
 		})
 		what := fmt.Sprintf("route with %d middleware handlers (+1 main handler) registered via %s (n=%d,n2=%d)", total, c.Via, c.N, c.N2)
